@@ -110,7 +110,11 @@ func Modify(node Node, f func(Node) (Node, bool)) (Node, bool) { //nolint:funlen
 			if !ok {
 				return nil, false
 			}
-			newNode.Parameters[i] = id.(*Identifier)
+			nid, isID := id.(*Identifier)
+			if !isID {
+				return nil, false // the callback replaced a parameter name by something that is not one: give up.
+			}
+			newNode.Parameters[i] = nid
 		}
 		nb, ok := Modify(node.Body, f)
 		if !ok {
@@ -202,7 +206,11 @@ func Modify(node Node, f func(Node) (Node, bool)) (Node, bool) { //nolint:funlen
 			if !ok {
 				return nil, false
 			}
-			newNode.Parameters[i] = id.(*Identifier)
+			nid, isID := id.(*Identifier)
+			if !isID {
+				return nil, false // the callback replaced a parameter name by something that is not one: give up.
+			}
+			newNode.Parameters[i] = nid
 		}
 		nb, ok := Modify(node.Body, f)
 		if !ok {
